@@ -668,6 +668,9 @@ func NewOneOfStructure(elems []specification.Ref[specification.Schema], d specif
 			return zero, nil, fmt.Errorf("new oneOf schema for %d-th element: %w", i, err)
 		}
 		imports = append(imports, ims...)
+		if schema.Ref != nil && schema.IsNullable() {
+			return zero, nil, fmt.Errorf("oneOf: %d-th element: %q is nullable: a nullable schema cannot be a variant of oneOf", i, schema.Ref.Name)
+		}
 		s.Elements = append(s.Elements, OneOfElement{
 			Index:  i,
 			Schema: schema,
